@@ -7,7 +7,7 @@
     rejection of malformed text, and that the Go builder does what Model/Front.v and Reader/FileBridge.v say
     it does, are decided by the correspondence run. *)
 From PegV Require Import Base.Tac Spec.Syntax Spec.Peg Proofs.PegRel Model.Calls Model.Front Proofs.FrontProofs
-  Generated.PegPeg Reader.Base Reader.Lex Reader.Chars Reader.Lits Reader.Expr Reader.Bridge Reader.BridgeDefs Reader.File Reader.FileBridge Reader.Reject Reader.Safe Reader.Top Reader.Shipped.
+  Generated.PegPeg Reader.Base Reader.Lex Reader.Chars Reader.Lits Reader.Expr Reader.Bridge Reader.BridgeDefs Reader.File Reader.FileBridge Reader.Reject Reader.RejectImport Reader.Safe Reader.Top Reader.Shipped.
 From PegV Require Import Model.Machine Model.Gen Proofs.OptSound Proofs.Top.
 Open Scope Z_scope.
 
@@ -218,6 +218,31 @@ Theorem C10_rejects_unclosed_state :
   exists n evs, peg_ev pegpeg_d pegpeg_d_ptx (pre_text f ++ kw_Peg ++ f_s3 f ++ 123 :: T) penv n (EName pr_Grammar) 0 = Some (Fail, evs).
 Proof. intros penv f T Hf HT. exact (grammar_rejects_unclosed_state _ penv f T Hf HT eq_refl). Qed.
 Print Assumptions C10_rejects_unclosed_state.
+
+(** an import block that is opened and never closed - after the package clause and any number of well-formed imports:
+    `import`, layout, `(` and a text without `)` - is refused (Reader/RejectImport.v: MultiImport finds no closing
+    parenthesis however far it reads, SingleImport cannot start at `(`, Import* ends before this import, and the keyword
+    `type` does not match `import`).  The shape of the change stored as seeded/C17-alt-norestore-after-rule-ref, which
+    made the shipped front end accept such a text. *)
+Theorem C10_rejects_unclosed_import :
+  forall penv hdr spkg pkg s1 imps sp T,
+    header_ok hdr [112] -> lay spkg -> spkg <> [] -> ident_ok pkg = true -> lay s1 -> s1 <> [] ->
+    Forall imp_ok imps -> lay sp -> ~ In 41 T ->
+    exists n evs, peg_ev pegpeg_d pegpeg_d_ptx
+      (flat_map hshow hdr ++ kw_package ++ spkg ++ pkg ++ s1 ++ flat_map impshow imps ++ kw_import ++ sp ++ 40 :: T)
+      penv n (EName pr_Grammar) 0 = Some (Fail, evs).
+Proof.
+  intros penv hdr spkg pkg s1 imps sp T H1 H2 H3 H4 H5 H6 H7 H8 H9.
+  exact (grammar_rejects_unclosed_import _ penv hdr spkg pkg s1 imps sp T H1 H2 H3 H4 H5 H6 H7 H8 H9 eq_refl).
+Qed.
+Print Assumptions C10_rejects_unclosed_import.
+
+(** non-vacuity: "package p\n\nimport (\n\"a\" \n" followed by the rest of a file without a closing parenthesis *)
+Example C10_unclosed_import_nonvacuous :
+  exists n evs, peg_ev pegpeg_d pegpeg_d_ptx
+    ([] ++ kw_package ++ [32] ++ [112] ++ [10; 10] ++ [] ++ kw_import ++ [32] ++ 40 :: [10; 34; 97; 34; 32; 10; 116; 121; 112; 101; 32; 84; 32; 80; 101; 103; 32; 123; 125; 10; 83; 32; 60; 45; 32; 39; 97; 39; 10])
+    (fun _ _ => true) n (EName pr_Grammar) 0 = Some (Fail, evs).
+Proof. exists 400%nat. eexists. vm_compute. reflexivity. Qed.
 
 (** the lexical layer on its own: any layout is skipped; every spelling of a character is read as its call *)
 Theorem C10_reader_spacing :
